@@ -3,6 +3,8 @@ import TriompheModel.Proofs.MonitorCow
 import TriompheModel.Proofs.MonitorUnwrap
 import TriompheModel.Proofs.MonitorCtor
 import TriompheModel.Proofs.MonitorCb
+import TriompheModel.Proofs.MonitorFree
+import TriompheModel.Proofs.MonitorIter
 /-!
 # Soundness of the trace monitor on the model's own observations
 
@@ -10,7 +12,7 @@ For every check `Ki` of `Model/Monitor.lean`: on the observation `observe (run p
 after any history `pre`, the check returns `[]`; and the monitor state stays in the simulation relation `Rel` with the
 model state.  `Props/Monitor.lean` assembles the theorem `monitor_accepts_model`.
 
-`Proofs/MonitorBase.lean`: the relation, K1 – K6.  `Proofs/MonitorCow.lean`: K7.  `Proofs/MonitorUnwrap.lean`: K8 – K10.  `Proofs/MonitorCtor.lean`: K11.  `Proofs/MonitorCb.lean`: K12, K13.
+`Proofs/MonitorBase.lean`: the relation, K1 – K6.  `Proofs/MonitorCow.lean`: K7.  `Proofs/MonitorUnwrap.lean`: K8 – K10.  `Proofs/MonitorCtor.lean`: K11.  `Proofs/MonitorCb.lean`: K12, K13.  `Proofs/MonitorFree.lean`: K14.  `Proofs/MonitorIter.lean`: K15.
 This file: one op.
 -/
 namespace M1
@@ -63,7 +65,11 @@ theorem checkOp_sound_perm (pre : List Op) (op : Op) (hf : FreshIds (pre ++ [op]
   rw [← checkK10_withEvs _ _ _ evs' hperm] at h10
   rw [← checkK11_withEvs _ _ _ evs' hperm] at h11
   rw [← hr.pre] at h4 h6 h7 h8 h9 h10 h11 h12 h13
-  simp only [checkOp, h1, h4, h6, h7, h8, h9, h10, h11, h12, h13, List.append_nil]
+  have h14 := K14_sound hi hlen st hr.pre op
+  rw [← checkK14_withEvs _ _ _ evs' hperm] at h14
+  have h15 : checkK15 st.pre op ((observe (run pre) op).withEvs evs') = [] := by
+    rw [hr.pre]; exact K15_sound (run pre) op
+  simp only [checkOp, h1, h4, h6, h7, h8, h9, h10, h11, h12, h13, h14, h15, List.append_nil]
 
 theorem checkOp_sound (pre : List Op) (op : Op) (hf : FreshIds (pre ++ [op])) (st : MSt) (hr : Rel st (run pre)) :
     (checkOp st op (observe (run pre) op)).2 = [] ∧
